@@ -288,8 +288,21 @@ fn trusted(node: &mut Node) -> String {
     let d = node.dump_inner(false);
     // strip the untrusted parts: last state announcements and outstanding requests
     let mut out = String::new();
+    let mut in_request = false;
     for tok in d.split(' ') {
-        if tok.starts_with("ls=") || tok.starts_with("rq=") || tok.starts_with("rb=") {
+        if tok.starts_with("rq=") {
+            // the fields of the request content follow as plain tokens up to the next `key=`
+            in_request = tok != "rq=-";
+            continue;
+        }
+        if in_request {
+            if tok.contains('=') {
+                in_request = false;
+            } else {
+                continue;
+            }
+        }
+        if tok.starts_with("ls=") || tok.starts_with("rb=") {
             continue;
         }
         // state kinds change with requests; keep only proof-bearing information
@@ -315,6 +328,7 @@ enum Edit {
     FewerLastN,          // genuine, proven, but the last-N section is shorter
     ExtraSample,         // genuine, proven, one more sampled header than requested
     WrongSample,         // genuine, proven, a neighbour block instead of a sampled one
+    GapReorg,            // genuine, proven, right count and end, but the reorg section has a gap
     ForgedTd,            // a header's parent chain root total difficulty altered
     Unsolicited,
 }
@@ -899,6 +913,7 @@ fn run_history(rep: &mut Report, prop: &str, seed: u64, len: usize) -> HistoryOu
                         Edit::FewerLastN,
                         Edit::ExtraSample,
                         Edit::WrongSample,
+                        Edit::GapReorg,
                         Edit::ForgedTd,
                     ])
                     .clone()
@@ -989,12 +1004,26 @@ fn run_history(rep: &mut Report, prop: &str, seed: u64, len: usize) -> HistoryOu
                         msg = msg.as_builder().last_header(other.verifiable_header(other.tip_number())).build();
                         effective = other.tip().hash() != chain.tip().hash();
                     }
-                    Edit::ShiftLastN | Edit::FewerLastN | Edit::ExtraSample | Edit::WrongSample => {
+                    Edit::ShiftLastN | Edit::FewerLastN | Edit::ExtraSample | Edit::WrongSample | Edit::GapReorg => {
                         // re-select genuine blocks and prove them honestly
                         if let Some((last, reorg, sampled, last_nn)) = numbers.clone() {
                             let mut sampled = sampled;
                             let mut last_nn = last_nn;
+                            let mut reorg = reorg;
                             match edit {
+                                Edit::GapReorg => {
+                                    // the first k headers of the reorg section move one block down:
+                                    // same count, same end, sorted, but a block is left out
+                                    if reorg.len() >= 2 && reorg[0] > 1 {
+                                        let k = rng.range(1, reorg.len() as u64 - 1) as usize;
+                                        for x in reorg.iter_mut().take(k) {
+                                            *x -= 1;
+                                        }
+                                        rep.count_class("c01:gap-in-reorg-section");
+                                    } else {
+                                        effective = false;
+                                    }
+                                }
                                 Edit::ShiftLastN => {
                                     if let Some(first) = last_nn.first().cloned() {
                                         let lowest = sampled.last().cloned().unwrap_or(0).max(reorg.last().cloned().unwrap_or(0));
